@@ -7,11 +7,17 @@ void vp_native_pre (int ok, const char *what);
 void vp_native_post (int ok, const char *name, const char *what);
 #define VP_PRE(c) vp_native_pre ((c), #c)
 #define VP_POST(name, c) vp_native_post ((c), name, #c)
-/* contract clauses vanish for gcc */
+/* contract clauses vanish for gcc; harness-level assume / assert are evaluated on the real code */
 #define __CPROVER_requires(x)
 #define __CPROVER_ensures(x)
 #define __CPROVER_assigns(...)
 #define __CPROVER_frees(...)
+void vp_native_fail (const char *msg);
+void vp_native_diverged (const char *what);
+#define __CPROVER_assume(c) do { if (!(c)) vp_native_diverged (#c); } while (0)
+#define __CPROVER_assert(c, msg) do { if (!(c)) vp_native_fail (msg); } while (0)
+#define __CPROVER_rw_ok(p, n) 1
+#define __CPROVER_r_ok(p, n) 1
 #else
 #define VP_PRE(c) ((void) 0)
 #define VP_POST(name, c) ((void) 0)
